@@ -195,26 +195,25 @@ PLANS = {
     "C09": {
         "rule": "One natively generated case file (byte search, byte iterators with generated next/next_back/count call patterns, substring search incl. "
                 "every building block and complete iterator sequences, packed pair with explicit offsets on both sides of min_haystack_len, is_equal/"
-                "is_prefix/is_suffix) is executed by `mvexec` built as: native at three forced CPU levels (AVX2 / SSE2 only / neither), --no-default-features, "
-                "alloc only, -C target-feature=+avx2, plain release (no debug assertions), emulated NEON / simd128 / no-SIMD wiring, and interpreted by Miri "
-                "for x86_64 (SSE2), x86_64+avx2, aarch64 (real NEON intrinsics), i686 and big-endian s390x (SWAR fallback). The judge requires every observation "
-                "to equal the naive oracle and to be record-for-record equal across configurations. In addition the in-process generators of C01-C04/C07/C08 "
-                "run on the native levels and emulated back ends. Non-trivial: a case executed in >= 2 configurations with a match (haystack >= 16 bytes).",
+                "is_prefix/is_suffix, finder histories) is executed by `mvexec` built as: native at three forced CPU levels (AVX2 / SSE2 only / neither), "
+                "--no-default-features, alloc only, -C target-feature=+avx2, plain release (no debug assertions), emulated NEON / simd128 / no-SIMD wiring, "
+                "and interpreted by Miri for x86_64 (SSE2), x86_64+avx2, aarch64 (real NEON intrinsics), i686 and big-endian s390x (SWAR fallback). "
+                "The judge puts every observation into an equivalence class (first position, last position, count, iterator sequence, leftmost / rightmost "
+                "occurrence, find_iter / rfind_iter sequence, packed-pair find, ...) and requires ALL implementations in ALL configurations to report the "
+                "same value per class - the property is about agreement, so answers that are identically wrong everywhere are C01-C08's business, not "
+                "C09's; the naive oracle is only used to word which side of a disagreement is wrong. Non-trivial: a case executed in >= 2 configurations "
+                "with a match (haystack >= 16 bytes).",
         "stages": [
             {"name": "casefile", "kind": "casefile", "configs": cfgs(NATIVE + ["X-nostd", "X-alloc", "X-avx2ct", "X-plain"] + EMU + ["M-x86", "M-avx2", "M-a64", "M-i686", "M-s390x"]),
-             "count": {"quick": 60000, "thorough": 3000000}, "miri_count": {"quick": 40, "thorough": 4000}, "miri_per_shard": 20, "fast_shards": 8},
-            {"name": "bytes-pbt", "cmd": "bytes-pbt", "configs": cfgs(NATIVE + EMU), "shards": shards(4, 16, 2, 8)},
-            {"name": "bytes-exh", "cmd": "bytes-exh", "configs": cfgs(NATIVE + EMU), "shards": shards(16, 16, 8, 16), "thorough_only": True},
-            {"name": "iter-pbt", "cmd": "iter-pbt", "configs": cfgs(NATIVE + EMU), "shards": shards(4, 8, 2, 4)},
-            {"name": "sub-pbt", "cmd": "sub-pbt", "configs": cfgs(NATIVE + EMU), "shards": shards(8, 16, 4, 8)},
-            {"name": "sub-short", "cmd": "sub-short", "configs": cfgs(NATIVE + EMU), "shards": shards(2, 8, 2, 4)},
+             "count": {"quick": 300000, "thorough": 4000000}, "miri_count": {"quick": 40, "thorough": 4000}, "miri_per_shard": 20, "fast_shards": 16},
         ],
         "assumptions": DEFAULT_ASSUMPTIONS + ["Miri's implementation of the x86/aarch64 vendor intrinsics is faithful", "compile-time -sse2 cannot be built for this target: 'CPU without SSE2' exists only as the forced level"],
+        "technique": "differential testing: generated case files executed in 15 build/CPU/target configurations, record-for-record comparison",
     },
     "C10": {
         "rule": SUB_GEN + "Each generated (needle, haystack) is searched by finders built with Prefilter::None and Prefilter::Auto x 8 rankers (default, constant 0, "
-                "constant 255, identity, reversed, generated table, needle-bytes-most-common, stateful): find and the complete find_iter sequence must equal "
-                "the naive answer in every configuration (hence each other). The phase generator aims the false-candidate stretch at the pair the selected "
+                "constant 255, identity, reversed, generated table, needle-bytes-most-common, stateful): find and the complete find_iter sequence must be identical "
+                "in all 16 configurations (the naive oracle only names the wrong side of a disagreement). The phase generator aims the false-candidate stretch at the pair the selected "
                 "ranker picks, so the adaptive prefilter goes inert for that configuration. Non-trivial: at least two rankers select different pairs and the needle occurs.",
         "stages": [
             {"name": "c10", "cmd": "c10", "configs": cfgs(NATIVE + EMU), "shards": shards(16, 16, 8, 8), "args": ["--scale", "5"]},
@@ -261,7 +260,8 @@ PLANS = {
         "rule": "proptest generates thread programs (2..=16 threads (32 thorough), 1..=6 operations each over the seven dispatched memchr routines, a shared "
                 "Finder / FinderRev, complete find_iter traversals, and memchr iterators advanced on one thread and handed to another through a channel); each "
                 "program runs in a FRESH mvexec process so the dispatch cache is uninitialised, all threads are released by a barrier and race to install the "
-                "implementation; every result is compared with the naive oracle computed before the threads start. Three forced CPU levels. "
+                "implementation; every observed result is compared with what the same call returns when executed on its own after all threads have finished "
+                "(the property's 'what it would return in isolation'). Three forced CPU levels; Miri-owned schedules for a sample. "
                 "Non-trivial: >= 2 threads whose first operation is the same dispatched routine.",
         "stages": [
             {"name": "threads", "cmd": "threads", "configs": cfgs(NATIVE), "shards": shards(16, 16), "needs_mvexec": True, "args": ["--scale", "16"]},
@@ -275,8 +275,8 @@ PLANS = {
     "C16": {
         "rule": "Model-based histories: op lists (<= 40 before, <= 30 after the needle buffer is overwritten with garbage and freed) over Find/Rfind on any of 3-7 "
                 "needle-derived haystacks (incl. one that exhausts the prefilter), StartIter/StartRevIter, Step, CloneFinder, AsRef, IntoOwned, CloneIter, "
-                "IntoOwnedIter, CheckNeedle. Model: every search equals naive_find/naive_rfind of that haystack whatever came before; clones and owned "
-                "conversions continue the greedy sequence at the same index; needle() equals the construction needle. The whole op vector shrinks as one value. "
+                "IntoOwnedIter, CheckNeedle. Reference: a FRESH finder's answer for that haystack (history independence), a fresh uninterrupted iterator's sequence for clones and "
+                "owned conversions (they must continue at the same index); needle() equals the construction needle. The whole op vector shrinks as one value. "
                 "Non-trivial: >= 3 searches over >= 3 haystacks on one finder, or a clone/into_owned taken from a partially consumed iterator.",
         "stages": [
             {"name": "history", "cmd": "history", "configs": cfgs(NATIVE + EMU), "shards": shards(16, 16, 8, 8), "args": ["--scale", "6"]},
